@@ -489,6 +489,20 @@ Theorem c20_dmx_history : forall ops input o,
 Proof. intros ops input o. split; [exact (dmx_history ops input)|exact (dmx_text_step_frame o input)]. Qed.
 Print Assumptions c20_dmx_history.
 
+(* Bytes outside ASCII: a text that contains a byte >= 0x80 ANYWHERE (first, middle, last) is rejected
+   by every parser whose grammar has no free-form tail: all HexStringToInt overloads, UID, MAC,
+   strict StringToInt, and the booleans.  (Lenient StringToInt and DMX items ignore what follows
+   the number by design; IPv4/IPv6/CID hand the C string to libc.)  Texts are byte lists, so the
+   exact-acceptance theorems above already quantify over such bytes; this is the direct statement. *)
+Theorem c20_high_bytes_rejected : forall t c, In c t -> 128 <= c ->
+  hex_to_u64 t = None /\ hex_to_u32 t = None /\ hex_to_u16 t = None /\ hex_to_u8 t = None /\
+  hex_to_i64 t = None /\ hex_to_i32 t = None /\ hex_to_i16 t = None /\ hex_to_i8 t = None /\
+  uid_from_string t = None /\ mac_from_string t = None /\
+  string_to_u64 true t = None /\ string_to_i64 true t = None /\
+  string_to_bool_tolerant t = None.
+Proof. exact high_byte_rejected. Qed.
+Print Assumptions c20_high_bytes_rejected.
+
 (* ---- non-vacuity ------------------------------------------------------------------------------- *)
 (* the hypotheses on the external functions are jointly satisfiable ... *)
 Example ex_net_hyps_sat :
@@ -556,3 +570,7 @@ Example ex_dmx_dirty :
   dmx_frame (dmx_run [OpText [57; 44; 57; 44; 57]; OpRange 201 300; OpSet [238; 238; 238]; OpText [49; 44; 44; 51]]) = [1; 0; 3] /\
   dmx_frame (dmx_run [OpText [57; 44; 57; 44; 57]; OpRange 201 300]) = [201; 201; 201] ++ repeat 201 297.
 Proof. vm_compute. split; reflexivity. Qed.
+
+Example ex_high_byte : hex_to_u8 [49; 178] = None /\ uid_from_string [55; 97; 55; 48; 58; 48; 48; 48; 48; 48; 48; 48; 177] = None /\
+  mac_from_string [48; 49; 58; 50; 51; 58; 52; 53; 58; 54; 55; 58; 56; 57; 58; 97; 198] = None.
+Proof. vm_compute. repeat split; reflexivity. Qed.
